@@ -94,11 +94,22 @@ class CaseFault:
         return None
 
 
+TAGS = [b"</DATAS>", b"<DATAS>", b"</PACKT>", b"<PACKT>", b"</SRCCN>", b"<DESCN>", b"</DESCN><DATAS>", b"STATV", b"\n", b"</DATAS></PACKT>", b"</DATAS></PACKT><PACKT><SRCCN>"]
+
+
 def make_blocks(r, style):
     if style == "pattern":
         S = bytes((i * 7 + i // SEG * 3 + 1) % 251 for i in range(1024))
     else:
         S = bytes(r.randrange(256) for _ in range(1024))
+    if style == "tags":
+        # the spa's bytes may spell the protocol's own delimiters, inside one segment or across two
+        S = bytearray(S)
+        for _ in range(r.randrange(2, 7)):
+            t = r.choice(TAGS)
+            at = r.randrange(0, 1024 - len(t))
+            S[at : at + len(t)] = t
+        S = bytes(S)
     B0 = bytes((S[i] + 1 + r.randrange(254)) % 256 for i in range(1024))
     return S, B0
 
@@ -272,7 +283,7 @@ def gen_cases(tier, seed):
                 add("B", st, L, none)
     for _ in range(300 if tier == "quick" else 20000):
         st = r.randrange(1024)
-        add("B", st, r.randrange(1, 1025 - st), none, blocks=r.choice(["random", "pattern"]))
+        add("B", st, r.randrange(1, 1025 - st), none, blocks=r.choice(["random", "pattern", "tags"]))
     # ---- fault enumeration: every single drop / dup / adjacent swap, request faults
     shapes = [(0, 1024), (256, 479), (5, 78), (100, 117), (700, 156), (0, 40)]
     if tier == "thorough":
@@ -297,7 +308,7 @@ def gen_cases(tier, seed):
             st = r.choice([0, 0, 256, r.randrange(900)])
             L = r.choice([1024 - st, 479 if st + 479 <= 1024 else 1024 - st, r.randrange(40, 1025 - st)])
             spec = {"kind": "random", "p_drop": r.choice([0.0, 0.02, 0.1, 0.5]), "p_dup": r.choice([0, 0.05, 0.3]), "p_delay": r.choice([0, 0.1, 0.5]), "max_delay": r.choice([0.03, 0.2, 1.0]), "p_drop_req": r.choice([0, 0.3]), "until_attempt": r.choice([1, 2, 10**9])}
-            add(regime, st, L, spec, retries=r.choice([1, 2, 3, 5]), varying=r.random() < 0.3, blocks=r.choice(["random", "pattern"]))
+            add(regime, st, L, spec, retries=r.choice([1, 2, 3, 5]), varying=r.random() < 0.3, blocks=r.choice(["random", "pattern", "tags"]))
         for _ in range(20 if tier == "quick" else 300):
             st = r.randrange(1000)
             add(regime, st, r.randrange(1, 1025 - st), none)
